@@ -252,7 +252,8 @@ fn main() {
                         }
                         o
                     };
-                    while run != u64::MAX && run > 0 {
+                    // (not for hangs: every repetition would burn the whole CPU limit again)
+                    while run != u64::MAX && run > 0 && signal != supervisor::SIG_HANG {
                         let mut a = strip(&args);
                         a.extend(["--runs".to_string(), run.to_string(), "--no-evidence".to_string()]);
                         match supervisor::spawn_child(&a, &crash_file, true) {
